@@ -36,7 +36,20 @@ def frame(tc, fields, bg, keep):
         mask |= 1 << (56 - p)
     me = (me & mask) | (bg & ~mask & ME_ONES)
     k = bg % 7
-    return F.es(me, [0x406B90, 0xFFFFFF, 0][k % 3], k % 8, 17 + k % 2, [0, 0xFFFFFF][k % 2])
+    global _ADDR_I, _ADDRS
+    if _ADDRS is None:
+        from engine.util import address_alphabet
+        _ADDRS = address_alphabet()
+    _ADDR_I += 1        # the sender's address rotates through corners, source literals and the interiors of the ranges they delimit
+    return F.es(me, _ADDRS[_ADDR_I % len(_ADDRS)], k % 8, 17 + k % 2, [0, 0xFFFFFF][k % 2])
+
+
+_ADDRS = None
+_ADDR_I = 0
+
+
+def _unused():
+    return None
 
 
 # zeros, ones, alternating - and plausible reports: the ME fields of real messages (TC29 target state, TC28 emergency,
